@@ -25,17 +25,19 @@ PID = "C13"
 LOCKED_AS_CODED = True        # do DataReport / HTMLReport guard their shared state? (pinned commit: no; yes since fix e858ac5)
 TRUNCATING_AS_CODED = False   # ranking comparator int(b.Outcome - a.Outcome) (pinned commit); cmp.Compare since fix 518b6a5
 TWO_SECTION_END_AS_CODED = True   # HTMLReport.AssetEnd: one critical section takes the results, a second records the best one
+RESET_ON_BEGIN_AS_CODED = True    # AssetBegin starts the asset's entry afresh (so one report object can serve run after run)
 STALE_BEST_AS_CODED = False       # variant: the list of best results is read in the first section (lost update when calls overlap)
 
 
-def bt_cfg(names, missing, ns, w, locked, extra, stale=None):
+def bt_cfg(names, missing, ns, w, locked, extra, stale=None, runs=1, reset=None):
     stale = STALE_BEST_AS_CODED if stale is None else stale
+    reset = RESET_ON_BEGIN_AS_CODED if reset is None else reset
     return ('CONSTANTS Names <- MCNames Missing = {%s} NS = %d W = %d Locked = %s Truncating = %s Outcomes = {0, 6, 12, 30}\n'
-            ' TwoSectionEnd = %s StaleBest = %s\n'
+            ' TwoSectionEnd = %s StaleBest = %s Runs = %d ResetOnBegin = %s\n'
             'SPECIFICATION Spec\nCHECK_DEADLOCK FALSE\n%s' % (
                 ", ".join('"%s"' % n for n in missing), ns, w,
                 "TRUE" if locked else "FALSE", "TRUE" if TRUNCATING_AS_CODED else "FALSE",
-                "TRUE" if TWO_SECTION_END_AS_CODED else "FALSE", "TRUE" if stale else "FALSE", extra))
+                "TRUE" if TWO_SECTION_END_AS_CODED else "FALSE", "TRUE" if stale else "FALSE", runs, "TRUE" if reset else "FALSE", extra))
 
 
 def bt_run(names, cfg, base="Backtest", more=None, extra_defs="", **kw):
@@ -73,6 +75,21 @@ def main():
     stale_refuted = rs.violation == "SameForAnyW"
     if STALE_BEST_AS_CODED == stale_refuted:
         machinery.append("spec/Backtest.tla: the StaleBest variant is %s refuted by SameForAnyW" % ("" if stale_refuted else "not"))
+    # one report object serving two runs: the properties hold for the second run as well, and the variant in which AssetBegin keeps
+    # an entry it finds is refuted by ExactlyOnce (else the second run would show nothing)
+    for names, missing, ns, w in [(["a", "b"], [], 2, 2), (["a", "b", "c"], ["b"], 1, 2)]:
+        r2 = bt_run(names, bt_cfg(names, missing, ns, w, LOCKED_AS_CODED, "INVARIANTS ExactlyOnce ProtocolOrder SameForAnyW\n", runs=2),
+                    workers=8, timeout=1200, heap="8g")
+        states += r2.distinct
+        trans += r2.generated
+        if r2.violation:
+            machinery.append("spec/Backtest.tla %s, two runs: %s violated" % ((names, missing, ns, w), r2.violation))
+    rk = bt_run(["a", "b"], bt_cfg(["a", "b"], [], 1, 1, True, "INVARIANTS ExactlyOnce\n", runs=2, reset=not RESET_ON_BEGIN_AS_CODED),
+                workers=2, timeout=600)
+    states += rk.distinct
+    trans += rk.generated
+    if (rk.violation == "ExactlyOnce") != RESET_ON_BEGIN_AS_CODED:
+        machinery.append("spec/Backtest.tla: the other ResetOnBegin variant is %srefuted by ExactlyOnce over two runs" % ("" if rk.violation else "not "))
     r = bt_run(["a", "b"], bt_cfg(["a", "b"], [], 2, 2, LOCKED_AS_CODED, "INVARIANTS NoDataRace\n"), workers=4, timeout=600)
     states += r.distinct
     trans += r.generated
